@@ -204,10 +204,12 @@ func (s *scen) task(t int) sched.Runnable {
 	s.mu.Unlock()
 	o.task = sched.NewTask(func() error {
 		s.mu.Lock()
-		t := o.ids[0] // the submission this run serves
-		if len(o.ids) > 1 {
-			o.ids = o.ids[1:]
+		k := o.next // the submission this run serves
+		if k >= len(o.ids) {
+			k = len(o.ids) - 1 // more runs than submissions: shows as a task run twice
 		}
+		o.next++
+		t := o.ids[k]
 		s.mu.Unlock()
 		outcome, gated := s.kinds(t)
 		n := atomic.AddInt64(&s.inflight, 1)
@@ -270,7 +272,8 @@ func (s *scen) task(t int) sched.Runnable {
 
 type taskObj struct {
 	task sched.Runnable
-	ids  []int
+	ids  []int // the submissions of this object, in order
+	next int   // how many of them have been served
 }
 
 type structErr struct {
